@@ -126,3 +126,44 @@ theorem get?_filter (d : Dict κ ν) (p : κ × ν → Bool) (h : WF d) (k : κ)
 
 end Dict
 end Shexer
+
+namespace Shexer
+namespace Dict
+variable {κ ν : Type} [DecidableEq κ]
+
+/-- a predicate on entries survives an update if the updated entry satisfies it -/
+theorem forall_upd (d : Dict κ ν) (k0 : κ) (f : Option ν → ν) (P : κ → ν → Prop)
+    (hd : ∀ k v, (k, v) ∈ d → P k v) (hnew : P k0 (f (get? d k0))) :
+    ∀ k v, (k, v) ∈ upd d k0 f → P k v := by
+  induction d with
+  | nil =>
+    intro k v h
+    simp only [upd, List.mem_singleton, Prod.mk.injEq] at h
+    obtain ⟨rfl, rfl⟩ := h
+    simpa [get?] using hnew
+  | cons hd' tl ih =>
+    obtain ⟨k', v'⟩ := hd'
+    intro k v h
+    by_cases hk : k' = k0
+    · subst hk
+      simp only [upd, if_true, List.mem_cons, Prod.mk.injEq] at h
+      rcases h with ⟨rfl, rfl⟩ | h
+      · simpa [get?] using hnew
+      · exact hd k v (List.mem_cons_of_mem _ h)
+    · simp only [upd, hk, if_false, List.mem_cons, Prod.mk.injEq] at h
+      rcases h with ⟨rfl, rfl⟩ | h
+      · exact hd _ _ List.mem_cons_self
+      · exact ih (fun k v hm => hd k v (List.mem_cons_of_mem _ hm)) (by simpa [get?, hk] using hnew) k v h
+
+/-- lookups return entries -/
+theorem mem_of_get? (d : Dict κ ν) (k : κ) (v : ν) (h : get? d k = some v) : (k, v) ∈ d := by
+  induction d with
+  | nil => simp at h
+  | cons hd tl ih =>
+    obtain ⟨k', v'⟩ := hd
+    by_cases hk : k' = k
+    · subst hk; simp only [get?, if_true, Option.some.injEq] at h; subst h; exact List.mem_cons_self
+    · simp only [get?, hk, if_false] at h; exact List.mem_cons_of_mem _ (ih h)
+
+end Dict
+end Shexer
